@@ -90,12 +90,19 @@ def c05_glue(case):
             return z * z if isinstance(z, Bicomplex) else np.asarray(z) ** 2
         s = z[0] * z[0] + z[1] * z[0] + z[1] * z[1] * z[1]
         return s
-    kw = dict(method=method, order=case['order'])
+    other = case.get('other')
+    m0, n0, o0 = other if other else (method, case['n'], case['order'])
+    kw = dict(method=m0, order=o0)
     if case['klass'] == 'Derivative':
-        kw['n'] = case['n']
+        kw['n'] = n0
     x = np.array([0.3, 0.7])
     steps = []
     obj = K(f, **kw)
+    if other:
+        obj.method = method
+        obj.order = case['order']
+        if case['klass'] == 'Derivative':
+            obj.n = case['n']
     gen = obj.step
     orig = gen.step_generator_function
 
